@@ -35,7 +35,7 @@ type advWorld struct {
 	parentID channel.ID
 	cur      *channel.State // H's current state of the H-P channel
 	curTx    channel.Transaction
-	inflight *channel.State // H's own update in flight (point "inflight")
+	inflight *channel.State     // H's own update in flight (point "inflight")
 	pending  *client.ProposalID // H's own proposal in flight (point "proposing")
 	subID    channel.ID         // the sub-channel of points "subopen" / "subsettled"
 	subCur   *channel.State     // H's current state of it
@@ -509,7 +509,7 @@ func runAdversaryCase(t *testing.T, c *advCase, proto bool, idx int) (what, clas
 		}
 		w.Bus.Proto = false
 		w.Sleep(25 * time.Second) // every 10 s time-out of the handlers has fired
-		if proposeDone != nil { // H's own proposal call (40 s context) returns, whatever the answer was
+		if proposeDone != nil {   // H's own proposal call (40 s context) returns, whatever the answer was
 			w.Sleep(40 * time.Second)
 			select {
 			case <-proposeDone:
